@@ -116,6 +116,10 @@ def from_NoteContainer(nc, duration=None, standalone=True):
             result += "."
     if not standalone:
         return result
+    elif duration != None and parsed_value[2:] != (1, 1):
+        # a tuplet: on its own the container has to say so itself (inside a
+        # bar, from_Bar groups the tuplets)
+        return "{ \\times %d/%d { %s } }" % (parsed_value[3], parsed_value[2], result)
     else:
         return "{ %s }" % result
 
@@ -196,10 +200,14 @@ def from_Composition(composition):
     # warning Throw exception
     if not hasattr(composition, "tracks"):
         return False
+    def quoted(text):
+        # backslash and double quote are markup inside a LilyPond string
+        return str(text).replace("\\", "\\\\").replace('"', '\\"')
+
     result = '\\header { title = "%s" composer = "%s" opus = "%s" } ' % (
-        composition.title,
-        composition.author,
-        composition.subtitle,
+        quoted(composition.title),
+        quoted(composition.author),
+        quoted(composition.subtitle),
     )
     for track in composition.tracks:
         result += from_Track(track) + " "
